@@ -3,9 +3,10 @@
    the prefix of MockIncludeDirective.run with a file-system trace); regenerated facts about the
    source: Gen/RawSites.v; proofs: Nest/RawProofs.v. *)
 From Coq Require Import List NArith Bool.
-From MV Require Import Base.PyStr Base.Res Nest.Raw Nest.RawProofs Gen.RawSites Gen.RawSrc Nest.RawSrcProofs.
+From MV Require Import Base.PyStr Base.Res Nest.Raw Nest.RawProofs Gen.RawSites Gen.RawSrc Nest.RawSrcProofs Gen.SettingsSites.
 Import ListNotations.
 Open Scope N_scope.
+From MV Require Import Nest.C20Lemmas.
 
 (* With raw content disabled, no raw node of any format survives at any depth of any tree. *)
 Theorem C20_no_raw_survives : forall doc : dnode,
@@ -24,12 +25,7 @@ Theorem C20_rest_untouched : forall doc : dnode,
   /\ snd (post_process false doc) = count_raw doc
   /\ (count_warning doc = O -> raw_flat doc = true ->
       count_warning (fst (post_process false doc)) = count_raw doc).
-Proof.
-  intro doc. repeat split.
-  - apply rest_untouched.
-  - apply strip_no_raw_id.
-  - intros Hw Hf. simpl. rewrite (one_warning_each doc Hw). apply flat_counts. exact Hf.
-Qed.
+Proof. exact C20_rest_untouched_l. Qed.
 Print Assumptions C20_rest_untouched.
 
 (* Finite table (regenerated on every run from the working tree): each of the 6 sites of the
@@ -39,14 +35,12 @@ Print Assumptions C20_rest_untouched.
    documentation build (myst_parser/_docs.py, not part of the parser); the loop has exactly the
    modelled shape (no filter on the format, traverse() list), is a top-level statement of
    Parser.parse and comes after parser.render. *)
-Definition docs_py : str :=
-  [109; 121; 115; 116; 95; 112; 97; 114; 115; 101; 114; 47; 95; 100; 111; 99; 115; 46; 112; 121].
 
 Theorem C20_all_raw_in_tree :
   length raw_sites = 6%nat
   /\ forallb (fun s => sink_in_tree_before_loop (rs_sink s) || str_eqb (rs_file s) docs_py) raw_sites = true
   /\ raw_loop_exact = true /\ raw_loop_after_render = true /\ raw_loop_top_level = true.
-Proof. vm_compute. repeat split; reflexivity. Qed.
+Proof. exact C20_all_raw_in_tree_l. Qed.
 Print Assumptions C20_all_raw_in_tree.
 
 (* With file insertion disabled the include directive's run() raises the level-2 directive error
@@ -68,13 +62,7 @@ Theorem C20_include_refuses_before_io :
         /\ ((forall id r, forallb (fun n => negb (is_refusal n)) (fst (render_other id r)) = true) ->
             filter (fun n => negb (is_refusal n)) (fst (render_refused regs render_other bs r))
             = fst (render_refused regs render_other (filter (fun b => negb (is_include b)) bs) r))).
-Proof.
-  split; [exact include_refuses|]. split; [vm_compute; repeat split; reflexivity|].
-  intros regs render_other render_text resolve resolve_std fs st bs r H. split; [|split].
-  - apply blocks_refused. exact H.
-  - apply refused_registries.
-  - intro Ho. apply refused_nodes. exact Ho.
-Qed.
+Proof. exact C20_include_refuses_before_io_l. Qed.
 Print Assumptions C20_include_refuses_before_io.
 
 (* with file insertion enabled the file is read (the model is not vacuously silent) *)
@@ -84,11 +72,7 @@ Theorem C20_include_reads_when_enabled : forall st name arg resolve resolve_std 
      (snd (include_run_prefix st name arg resolve resolve_std fs))
   /\ (is_standard_arg arg = true -> include_path arg resolve resolve_std = resolve_std (standard_inner arg))
   /\ (is_standard_arg arg = false -> include_path arg resolve resolve_std = resolve arg).
-Proof.
-  intros st name arg resolve resolve_std fs H. split.
-  - apply include_reads_when_enabled. exact H.
-  - apply include_path_forms.
-Qed.
+Proof. exact C20_include_reads_when_enabled_l. Qed.
 Print Assumptions C20_include_reads_when_enabled.
 
 (* ---- the same, for the code regenerated from the source on this run (Gen/RawSrc.v) ----
@@ -102,7 +86,7 @@ Theorem C20_src_is_model :
   /\ (forall st opts name arg resolve resolve_std fs slice circular,
         include_run_src st opts name arg resolve resolve_std fs slice circular
         = include_run_head st opts name arg resolve resolve_std fs slice circular).
-Proof. split; [exact post_process_src_model | exact include_run_src_head]. Qed.
+Proof. exact C20_src_is_model_l. Qed.
 Print Assumptions C20_src_is_model.
 
 Theorem C20_no_raw_survives_src : forall doc : dnode,
@@ -110,11 +94,7 @@ Theorem C20_no_raw_survives_src : forall doc : dnode,
   /\ Rstrip doc (fst (post_process_src false doc))
   /\ snd (post_process_src false doc) = count_raw doc
   /\ post_process_src true doc = (doc, O).
-Proof.
-  intro doc. rewrite !post_process_src_model. repeat split.
-  - apply post_process_no_raw.
-  - apply rest_untouched.
-Qed.
+Proof. exact C20_no_raw_survives_src_l. Qed.
 Print Assumptions C20_no_raw_survives_src.
 
 (* whatever the argument spelling, the options, the file system: with file insertion disabled
@@ -128,17 +108,21 @@ Theorem C20_include_refuses_before_io_src :
         file_insertion_enabled st = true ->
         In (FsRead (include_path arg resolve resolve_std))
            (snd (include_run_src st opts name arg resolve resolve_std fs slice circular))).
-Proof.
-  split; intros st opts name arg resolve resolve_std fs slice circular H;
-    rewrite include_run_src_head; unfold include_run_head.
-  - rewrite (include_refuses st name arg resolve resolve_std fs H). reflexivity.
-  - pose proof (include_reads_when_enabled st name arg resolve resolve_std fs H) as Hr.
-    destruct (include_run_prefix st name arg resolve resolve_std fs) as [[text|l m] tr]; cbn [snd] in *.
-    + destruct (slice text); [|exact Hr]. destruct (io_literal opts); [exact Hr|].
-      destruct (io_code opts); [exact Hr|]. destruct (circular _); exact Hr.
-    + exact Hr.
-Qed.
+Proof. exact C20_include_refuses_before_io_src_l. Qed.
 Print Assumptions C20_include_refuses_before_io_src.
+
+(* O_docutils_checks, structurally: docutils' own raw / include / csv-table checks read
+   state.document.settings (inliner.document.settings).  Finite table (regenerated on every run, 19
+   sites): at every place where MyST hands a document, a settings object, a mocked state / state
+   machine / inliner or a directive instance to docutils code, the settings object reachable from
+   it is the main document's settings object - the renderer's document is the document docutils
+   created (Parser.parse, setup_render; nothing rebinds it), every mock takes renderer.document,
+   the eval-rst document is given self.document.settings before the rST parser runs. *)
+Theorem C20_settings_shared :
+  length settings_sites = 19%nat
+  /\ forallb (site_shares_settings settings_sites) settings_sites = true.
+Proof. exact C20_settings_shared_l. Qed.
+Print Assumptions C20_settings_shared.
 
 (* non-vacuity: a tree with html and latex raw nodes at two depths *)
 Example C20_example :
@@ -146,4 +130,4 @@ Example C20_example :
     (DNode (KElem 0) [] [DNode (KElem 1) [] [DText [97]; DNode (KRaw [104; 116; 109; 108]) [] [DText [60]]];
                          DNode (KRaw [108; 97; 116; 101; 120]) [] []; DText [98]])
   = (DNode (KElem 0) [] [DNode (KElem 1) [] [DText [97]; raw_warning]; raw_warning; DText [98]], 2%nat).
-Proof. vm_compute. reflexivity. Qed.
+Proof. exact C20_example_l. Qed.
